@@ -36,6 +36,10 @@ ERRS = {
     "type": '$z = "a" + 1',
     "attr-none": "$z = $nothing.x",
     "send-bad-expr": "send OutX(x=1/0)",
+    "send-undef-var-member": "send OutX(x=$nothing.y)",
+    "start-action-bad-arg": "start OutXAction(x=1/0)",
+    "start-flow-bad-arg": "start vhelper2 1/0",
+    "umim-param-wrong-type": "start UtteranceBotAction(script=5)",
     "if-bad-cond": "if 1/0 > 0\n{ind}  $z = 1",
     "bad-regex-match": 'match G(x=regex("("))',
     "unknown-ref-match": "match $nope.Finished()",
@@ -46,6 +50,7 @@ ERRS = {
     "bad-regex-and": 'match G(x=regex("(")) and F()',
 }
 MATCH_TIME = ("bad-regex-match", "unknown-ref-match", "bad-member", "bad-regex-or-first", "bad-regex-or-last", "bad-regex-and")
+ACTION_TIME = ("umim-param-wrong-type",)  # the error is raised while the outgoing action event is created (event validation)
 REGEX_KINDS = ("bad-regex-match", "bad-regex-or-first", "bad-regex-or-last", "bad-regex-and")
 
 HEADER = '''flow main
@@ -81,6 +86,10 @@ flow vhelper
   match G() or F()
   match G()
   match G()
+
+@loop("v")
+flow vhelper2 $p
+  match Never()
 
 @loop("v")
 flow victim
@@ -123,7 +132,11 @@ def render_victim(lines, inject=None):
     for idx, (ind, text) in enumerate(lines):
         if inject is not None and inject[0] == idx:
             stmt = ERRS[inject[1]].replace("{ind}", "  " * ind)
-            out.append("  " * ind + "send AtFault()")  # unambiguous "the victim reached the faulty statement" marker
+            if not (len(inject) > 2 and inject[2]):
+                # unambiguous "the victim reached the faulty statement" marker. Left out in the `nomark` variant: the marker is
+                # itself an action statement, so with it the faulty statement is never reached in the same processing step in
+                # which OTHER flows' heads stand on action statements (witnesses reacting to the same event)
+                out.append("  " * ind + "send AtFault()")
             out.append("  " * ind + stmt)
         out.append("  " * ind + text)
     return HEADER + "\n".join(out) + "\n"
@@ -209,6 +222,8 @@ def cases(tier, seed):
             for kind in sorted(ERRS):
                 i += 1
                 yield {"id": i, "fam": "iso", "seed": base + k, "pos": pos, "kind": kind}
+                i += 1
+                yield {"id": i, "fam": "iso", "seed": base + k, "pos": pos, "kind": kind, "nomark": True}
 
 
 _R = {}
@@ -321,9 +336,9 @@ def run_iso(case):
             return dict(res, verdict="inconclusive", reason="base-program-not-clean")
         return dict(res, verdict="held")
     pos, kind = case["pos"], case["kind"]
-    src = render_victim(lines, (pos, kind))
+    src = render_victim(lines, (pos, kind, bool(case.get("nomark"))))
     res = {"key": repr((src, hist)), "fam": fam, "kind": kind, "nontrivial": True, "sample": {"program": src, "history": hist, "error_kind": kind, "position": pos}}
-    obs = {"iso_" + kind: 1, "fault_positions": 1}
+    obs = {"iso_" + kind: 1, "fault_positions": 1, "iso_without_marker": int(bool(case.get("nomark")))}
     problems = []
     outs = None
     try:
@@ -382,4 +397,6 @@ def classify(r):
         return "nontermination:" + str(m.get("kind"))
     if r.get("kind") in MATCH_TIME:
         return "error-outside-slide-not-contained"
+    if r.get("kind") in ACTION_TIME:
+        return "error-in-action-event-generation-not-contained"
     return "isolation:%s:%s" % (r.get("kind"), r.get("mech"))
